@@ -69,12 +69,12 @@ Proof. intros c p H. unfold cache_has_file, pending in *. rewrite H. reflexivity
 
 (* (a) tree, new cache and memo untouched *)
 Definition hsame (w w' : world) : Prop :=
-  w_fs w' = w_fs w /\ w_new w' = w_new w /\ w_hash w' = w_hash w.
+  w_old w' = w_old w /\ w_fs w' = w_fs w /\ w_new w' = w_new w /\ w_hash w' = w_hash w.
 
 Lemma hsame_refl : forall w, hsame w w.
 Proof. intro w. repeat split. Qed.
 Lemma hsame_trans : forall a b c, hsame a b -> hsame b c -> hsame a c.
-Proof. unfold hsame. intros a b c (A1 & A2 & A3) (B1 & B2 & B3). repeat split; congruence. Qed.
+Proof. unfold hsame. intros a b c (A0 & A1 & A2 & A3) (B0 & B1 & B2 & B3). repeat split; congruence. Qed.
 Definition HSPO : PO := {| rel := hsame; po_refl := hsame_refl; po_trans := hsame_trans |}.
 
 (* (b) tree and new cache untouched; the memo gained entries, each of them the
@@ -86,11 +86,11 @@ Definition good_entry (strict : bool) (w : world) (e : path * (pyval * bool)) : 
   (strict = true -> ~ pending (w_new w) (fst e)).
 
 Definition hx (strict : bool) (w w' : world) : Prop :=
-  w_fs w' = w_fs w /\ w_new w' = w_new w /\
+  w_old w' = w_old w /\ w_fs w' = w_fs w /\ w_new w' = w_new w /\
   exists nw, w_hash w' = nw ++ w_hash w /\ Forall (good_entry strict w) nw.
 
 Lemma hx_refl : forall s w, hx s w w.
-Proof. intros s w. split; [reflexivity|]. split; [reflexivity|]. exists []. split; [reflexivity | constructor]. Qed.
+Proof. intros s w. split; [reflexivity|]. split; [reflexivity|]. split; [reflexivity|]. exists []. split; [reflexivity | constructor]. Qed.
 
 Lemma good_entry_eq : forall s w w' e, w_fs w' = w_fs w -> w_new w' = w_new w ->
   good_entry s w' e -> good_entry s w e.
@@ -98,8 +98,8 @@ Proof. intros s w w' e Hf Hn H. unfold good_entry in *. rewrite Hf, Hn in H. exa
 
 Lemma hx_trans : forall s a b c, hx s a b -> hx s b c -> hx s a c.
 Proof.
-  intros s a b c (A1 & A2 & n1 & A3 & A4) (B1 & B2 & n2 & B3 & B4).
-  split; [congruence|]. split; [congruence|]. exists (n2 ++ n1). split.
+  intros s a b c (A0 & A1 & A2 & n1 & A3 & A4) (B0 & B1 & B2 & n2 & B3 & B4).
+  split; [congruence|]. split; [congruence|]. split; [congruence|]. exists (n2 ++ n1). split.
   - rewrite B3, A3, app_assoc. reflexivity.
   - apply Forall_app. split; [|exact A4].
     eapply Forall_impl; [|exact B4]. intros e He. eapply good_entry_eq; eauto.
@@ -109,13 +109,13 @@ Definition HXPO (s : bool) : PO := {| rel := hx s; po_refl := hx_refl s; po_tran
 
 Lemma hsame_hx : forall s w w', HSPO w w' -> HXPO s w w'.
 Proof.
-  cbn. intros s w w' (A1 & A2 & A3). split; [exact A1|]. split; [exact A2|].
+  cbn. intros s w w' (A0 & A1 & A2 & A3). split; [exact A0|]. split; [exact A1|]. split; [exact A2|].
   exists []. split; [exact A3 | constructor].
 Qed.
 
 Lemma hx_strict_weaken : forall w w', HXPO true w w' -> HXPO false w w'.
 Proof.
-  cbn. intros w w' (A1 & A2 & nw & A3 & A4). split; [exact A1|]. split; [exact A2|].
+  cbn. intros w w' (A0 & A1 & A2 & nw & A3 & A4). split; [exact A0|]. split; [exact A1|]. split; [exact A2|].
   exists nw. split; [exact A3|]. eapply Forall_impl; [|exact A4].
   intros e (E1 & E2 & _). split; [exact E1|]. split; [exact E2|]. discriminate.
 Qed.
@@ -123,7 +123,7 @@ Qed.
 (* what [hx] gives *)
 Lemma hx_HInv : forall s w w', hx s w w' -> HInv w -> HInv w'.
 Proof.
-  intros s w w' (A1 & A2 & nw & A3 & A4) [Hok Hns]. rewrite Forall_forall in A4. split.
+  intros s w w' (A0 & A1 & A2 & nw & A3 & A4) [Hok Hns]. rewrite Forall_forall in A4. split.
   - intros p h b f Hg Hb Hl. rewrite A3, hash_get_app in Hg. rewrite A2 in Hb. rewrite A1 in Hl.
     destruct (hash_get nw p) as [e|] eqn:E.
     + inversion Hg; subst e. apply hash_get_In in E. destruct (A4 _ E) as (_ & (g & G1 & G2) & _).
@@ -140,7 +140,7 @@ Qed.
 Lemma hx_nofile : forall s w w' x, hx s w w' -> isfile (w_fs w) x = false ->
   hash_get (w_hash w') x = hash_get (w_hash w) x.
 Proof.
-  intros s w w' x (A1 & A2 & nw & A3 & A4) Hx. rewrite A3, hash_get_app.
+  intros s w w' x (A0 & A1 & A2 & nw & A3 & A4) Hx. rewrite A3, hash_get_app.
   destruct (hash_get nw x) as [e|] eqn:E; [|reflexivity].
   apply hash_get_In in E. rewrite Forall_forall in A4. destruct (A4 _ E) as (_ & (g & G1 & _) & _).
   cbn [fst] in G1. unfold isfile in Hx. rewrite G1 in Hx. discriminate Hx.
@@ -150,7 +150,7 @@ Qed.
 Lemma hx_strict_pending : forall w w' x, hx true w w' -> pending (w_new w) x ->
   hash_get (w_hash w') x = hash_get (w_hash w) x.
 Proof.
-  intros w w' x (A1 & A2 & nw & A3 & A4) Hx. rewrite A3, hash_get_app.
+  intros w w' x (A0 & A1 & A2 & nw & A3 & A4) Hx. rewrite A3, hash_get_app.
   destruct (hash_get nw x) as [e|] eqn:E; [|reflexivity].
   apply hash_get_In in E. rewrite Forall_forall in A4. destruct (A4 _ E) as (_ & _ & G).
   exfalso. exact (G eq_refl Hx).
@@ -237,7 +237,7 @@ Proof.
     | None => (w, inr (XOS (err_of (stat_err (w_fs w) p))))
     end = (w1, r1) -> hx s w w1).
   { intros w1 r1 H1. destruct (lookup (w_fs w) p) as [[f|]|] eqn:E; inversion H1; subst; try apply hx_refl.
-    split; [reflexivity|]. split; [reflexivity|].
+    split; [reflexivity|]. split; [reflexivity|]. split; [reflexivity|].
     exists [(p, (hash_of (f_bytes f), cache_has_file (w_new w) p))]. split; [reflexivity|].
     constructor; [|constructor]. split; [reflexivity|]. split; [|exact Hs].
     exists f. split; [exact E | reflexivity]. }
@@ -335,7 +335,7 @@ Proof.
     assert (S2 : hsame w w2).
     { refine ((_ : pres HSPO _) w w2 _ E2). pres_auto. }
     apply (hx_trans true w w2 w'); [apply (hsame_hx true); exact S2|].
-    destruct S2 as (F2 & N2 & H2).
+    destruct S2 as (O2 & F2 & N2 & H2).
     apply bind_inv in H. destruct H as [(w3 & res & E3 & H) | (e & E3 & _)].
     + assert (X3 : hx true w2 w3).
       { apply catch_inv in E3. destruct E3 as [(a & E3 & _) | (w4 & e & E3 & E4)].
@@ -375,20 +375,20 @@ Definition fsub (fs fs' : fsT) : Prop :=
   forall x f, lookup fs' x = Some (NFile f) -> lookup fs x = Some (NFile f).
 
 Definition fstep (w w' : world) : Prop :=
-  w_new w' = w_new w /\ w_hash w' = w_hash w /\ fsub (w_fs w) (w_fs w').
+  w_old w' = w_old w /\ w_new w' = w_new w /\ w_hash w' = w_hash w /\ fsub (w_fs w) (w_fs w').
 
 Lemma fstep_refl : forall w, fstep w w.
-Proof. intro w. split; [reflexivity|]. split; [reflexivity|]. intros x f H; exact H. Qed.
+Proof. intro w. split; [reflexivity|]. split; [reflexivity|]. split; [reflexivity|]. intros x f H; exact H. Qed.
 Lemma fstep_trans : forall a b c, fstep a b -> fstep b c -> fstep a c.
 Proof.
-  intros a b c (A1 & A2 & A3) (B1 & B2 & B3). split; [congruence|]. split; [congruence|].
+  intros a b c (A0 & A1 & A2 & A3) (B0 & B1 & B2 & B3). split; [congruence|]. split; [congruence|]. split; [congruence|].
   intros x f H. apply A3, B3, H.
 Qed.
 Definition FSPO : PO := {| rel := fstep; po_refl := fstep_refl; po_trans := fstep_trans |}.
 
 Lemma hsame_fstep : forall w w', HSPO w w' -> FSPO w w'.
 Proof.
-  cbn. intros w w' (A1 & A2 & A3). split; [exact A2|]. split; [exact A3|]. rewrite A1. intros x f H; exact H.
+  cbn. intros w w' (A0 & A1 & A2 & A3). split; [exact A0|]. split; [exact A2|]. split; [exact A3|]. rewrite A1. intros x f H; exact H.
 Qed.
 #[local] Hint Extern 8 (pres FSPO _) => apply (pres_weaken HSPO FSPO _ _ hsame_fstep) : pres.
 
@@ -440,7 +440,7 @@ Qed.
 
 Ltac fs_solve :=
   first [ apply fstep_refl
-        | split; [reflexivity|]; split; [reflexivity|]; intros ?x ?f ?X; assumption ].
+        | split; [reflexivity|]; split; [reflexivity|]; split; [reflexivity|]; intros ?x ?f ?X; assumption ].
 
 Lemma effect_fs : forall what p f,
   (forall fs fs', f fs = inl fs' -> fsub fs fs') -> pres FSPO (effect what p f).
@@ -449,7 +449,7 @@ Proof.
   destruct (existsb (Nat.eqb (w_effects w)) (w_faults w)).
   - inversion H; subst. fs_solve.
   - cbn [w_fs set_effects] in H. destruct (f (w_fs w)) as [fs'|e] eqn:E; inversion H; subst.
-    + split; [reflexivity|]. split; [reflexivity|]. cbn [w_fs set_log set_fs]. eapply Hf; eauto.
+    + split; [reflexivity|]. split; [reflexivity|]. split; [reflexivity|]. cbn [w_fs set_log set_fs]. eapply Hf; eauto.
     + fs_solve.
 Qed.
 
@@ -471,7 +471,7 @@ Proof.
   cbn [w_fs set_effects] in H.
   destruct (rename_out (w_fs w) p) as [[fs' n]|e] eqn:E.
   - apply rename_out_fsub in E.
-    destruct n; inversion H; subst; (split; [reflexivity|]); (split; [reflexivity|]); exact E.
+    destruct n; inversion H; subst; (split; [reflexivity|]); (split; [reflexivity|]); (split; [reflexivity|]); exact E.
   - destruct e; inversion H; subst; fs_solve.
 Qed.
 #[local] Hint Resolve back_up_and_remove_fs : pres.
@@ -537,7 +537,7 @@ Definition BPO : PO := {| rel := brel; po_refl := brel_refl; po_trans := brel_tr
 
 Lemma fstep_brel : forall w w', FSPO w w' -> BPO w w'.
 Proof.
-  cbn. intros w w' (A1 & A2 & A3) Hi. refine (HInv_step w w' A2 A3 _ Hi). rewrite A1. auto.
+  cbn. intros w w' (A0 & A1 & A2 & A3) Hi. refine (HInv_step w w' A2 A3 _ Hi). rewrite A1. auto.
 Qed.
 Lemma hx_brel : forall w w', HXPO false w w' -> BPO w w'.
 Proof. cbn. intros w w' H Hi. eapply hx_HInv; eauto. Qed.
@@ -610,7 +610,7 @@ Proof.
     + apply bind_inv in E3. destruct E3 as [(w4 & u4 & _ & E3) | (e' & _ & E3)];
         [inversion E3 | discriminate E3].
   - apply catch_inv in E2. destruct E2 as [(a' & _ & E2) | (w3 & e0 & E2 & E3)]; [discriminate E2|].
-    apply Hm in E2. destruct E2 as (N & Hh & Hf).
+    apply Hm in E2. destruct E2 as (_ & N & Hh & Hf).
     apply bind_inv in E3. destruct E3 as [(w4 & u4 & E3 & E4) | (e' & E3 & _)]; [|inversion E3].
     inversion E4; subst w4. unfold new_abort_building_file, modify in E3. inversion E3; subst w'.
     cbn [w_new set_new w_hash w_fs] in *.
@@ -695,7 +695,7 @@ Proof.
   { destruct (isfile (w_fs w) p) eqn:Ef.
     - apply bind_inv in E2. destruct E2 as [(w5 & b & E5 & E2) | (e & _ & E2)]; [|discriminate E2].
       inversion E2; subst w5. pose proof (back_up_and_remove_gone _ _ _ _ E5) as G.
-      apply back_up_and_remove_fs in E5. destruct E5 as (N & Hh & _). auto.
+      apply back_up_and_remove_fs in E5. destruct E5 as (_ & N & Hh & _). auto.
     - inversion E2; subst. cbn [w_new w_hash w_fs set_new]. auto. }
   destruct X as (N & Hh & G). split; [reflexivity|]. split; [exact Hi'|]. split.
   - unfold pending. rewrite N. cbn [w_new set_new c_files cache_with]. apply files_get_set_same.
@@ -874,14 +874,14 @@ Definition XPO (x : path) : PO := {| rel := xrel x; po_refl := xrel_refl x; po_t
 
 Lemma fstep_xrel : forall x w w', FSPO w w' -> XPO x w w'.
 Proof.
-  cbn. intros x w w' (A1 & A2 & A3) Hp. unfold pending in *. rewrite A1. split; [exact Hp|].
+  cbn. intros x w w' (A0 & A1 & A2 & A3) Hp. unfold pending in *. rewrite A1. split; [exact Hp|].
   intro G. split; [|rewrite A2; reflexivity].
   unfold isfile in *. destruct (lookup (w_fs w') x) as [[f|]|] eqn:E; try reflexivity.
   apply A3 in E. rewrite E in G. discriminate G.
 Qed.
 Lemma hx_xrel : forall x w w', HXPO false w w' -> XPO x w w'.
 Proof.
-  cbn. intros x w w' H Hp. pose proof H as (A1 & A2 & _). unfold pending in *. rewrite A2. split; [exact Hp|].
+  cbn. intros x w w' H Hp. pose proof H as (_ & A1 & A2 & _). unfold pending in *. rewrite A2. split; [exact Hp|].
   intro G. split; [rewrite A1; exact G|]. eapply hx_nofile; eauto.
 Qed.
 #[local] Hint Extern 8 (pres (XPO _) _) => apply (pres_weaken FSPO (XPO _) _ _ (fstep_xrel _)) : pres.
@@ -1103,4 +1103,574 @@ Proof.
     apply (m_subbuild_X x) in E.
     + apply IHk in H; [|exact Ht]. eapply xrel_trans; [exact E | exact H].
     + intros sa skw. apply IHfn. discriminate.
+Qed.
+
+(* ================================================================== *)
+(** * 6. After the repair of D15: the replay never hashes a claimed path *)
+(* ================================================================== *)
+
+(* (Model/Builder.v [is_op_cached], OBuildFile case: the test "the path is claimed
+   in the new cache, or is the cache file" now comes before the file is compared.)
+   The overlay of files "created so far" by a replay holds unclaimed paths only. *)
+Definition cf_ok (c : cache) (cf : cfiles) : Prop :=
+  forall p, mem_path p (cf_files cf) = true -> cache_has_file c p = false.
+Definition cfo_ok (c : cache) (cfo : option cfiles) : Prop :=
+  forall cf, cfo = Some cf -> cf_ok c cf.
+
+Lemma cfo_ok_None : forall c, cfo_ok c None.
+Proof. intros c cf H. discriminate H. Qed.
+Lemma cf_ok_empty : forall c, cf_ok c cf_empty.
+Proof. intros c p H. discriminate H. Qed.
+
+(* ---- the overlay operations that do not add a file ---- *)
+Lemma cf_add_to_subfiles_files : forall c p, cf_files (cf_add_to_subfiles c p) = cf_files c.
+Proof. intros c [|n d]; reflexivity. Qed.
+
+Lemma cf_started_from_files : forall parent c, cf_files (cf_started_from c parent) = cf_files c.
+Proof.
+  induction parent as [|n d IH]; intro c; cbn [cf_started_from]; cbv zeta.
+  - destruct (Nat.ltb 0 _); [reflexivity|]. rewrite cf_add_to_subfiles_files. reflexivity.
+  - destruct (Nat.ltb 0 _); [reflexivity|]. rewrite IH, cf_add_to_subfiles_files. reflexivity.
+Qed.
+
+Lemma cf_started_files : forall c p, cf_files (cf_started c p) = cf_files c.
+Proof. intros c [|n d]; [reflexivity|]. apply cf_started_from_files. Qed.
+
+Lemma cf_remove_from_subfiles_files : forall c p c', cf_remove_from_subfiles c p = Some c' -> cf_files c' = cf_files c.
+Proof.
+  intros c [|n d] c' H; cbn [cf_remove_from_subfiles] in H; [inversion H; reflexivity|].
+  destruct (sub_get (cf_sub c) d); [|discriminate H].
+  destruct (negb (mem_str n l)); [discriminate H|]. inversion H; reflexivity.
+Qed.
+
+Lemma cf_error_from_files : forall parent c c', cf_error_from c parent = Some c' -> cf_files c' = cf_files c.
+Proof.
+  induction parent as [|n d IH]; intros c c' H; cbn [cf_error_from] in H.
+  - destruct (cnt_get (cf_counts c) []); [|discriminate H]. cbv zeta in H.
+    destruct (Nat.ltb 0 _); [inversion H; reflexivity|].
+    destruct (negb (mem_path [] (cf_dirs c))); [discriminate H|].
+    match type of H with match ?X with _ => _ end = _ => destruct X as [c2|] eqn:E end; [|discriminate H].
+    inversion H; subst. apply cf_remove_from_subfiles_files in E. exact E.
+  - destruct (cnt_get (cf_counts c) (n :: d)); [|discriminate H]. cbv zeta in H.
+    destruct (Nat.ltb 0 _); [inversion H; reflexivity|].
+    destruct (negb (mem_path (n :: d) (cf_dirs c))); [discriminate H|].
+    match type of H with match ?X with _ => _ end = _ => destruct X as [c2|] eqn:E end; [|discriminate H].
+    apply IH in H. apply cf_remove_from_subfiles_files in E. cbn [cf_files cf_with] in E. congruence.
+Qed.
+
+Lemma cf_error_files : forall c p c', cf_error c p = Some c' -> cf_files c' = cf_files c.
+Proof. intros c [|n d] c' H; cbn [cf_error] in H; [inversion H; reflexivity|]. eapply cf_error_from_files; eauto. Qed.
+
+Lemma mem_path_add : forall q p l, mem_path q (add_path p l) = true -> q = p \/ mem_path q l = true.
+Proof.
+  intros q p l H. unfold add_path in H. destruct (mem_path p l); [right; exact H|].
+  induction l as [|x l IH]; cbn [app mem_path] in H.
+  - rewrite orb_false_r in H. apply path_eqb_eq in H. left. symmetry. exact H.
+  - apply orb_true_iff in H. destruct H as [H|H]; [right; cbn [mem_path]; rewrite H; reflexivity|].
+    destruct (IH H) as [X|X]; [left; exact X | right; cbn [mem_path]; rewrite X; apply orb_true_r].
+Qed.
+
+Lemma cf_ok_finished : forall c cf p, cf_ok c cf -> cache_has_file c p = false -> cf_ok c (cf_finished cf p).
+Proof.
+  intros c cf p H Hp q Hq. unfold cf_finished in Hq. rewrite cf_add_to_subfiles_files in Hq. cbn [cf_files cf_with] in Hq.
+  apply mem_path_add in Hq. destruct Hq as [->|Hq]; [exact Hp | apply H; exact Hq].
+Qed.
+
+(* ---- read() under an overlay ---- *)
+Lemma is_file_no_read_pending_cf : forall p cfo w w' r, cfo_ok (w_new w) cfo ->
+  is_file_no_read p cfo w = (w', r) -> w' = w /\ (pending (w_new w) p -> r = inl (Some false)).
+Proof.
+  intros p cfo w w' r Hc H. unfold is_file_no_read in H.
+  destruct (cf_has_file cfo p) eqn:E1.
+  { inversion H; subst. split; [reflexivity|]. intro Hp. exfalso.
+    destruct cfo as [cf|]; [|discriminate E1]. cbn [cf_has_file] in E1.
+    pose proof (pending_has_file _ _ Hp) as Y. pose proof (Hc cf eq_refl p E1) as X. congruence. }
+  destruct (cf_has_dir cfo p). { inversion H; subst. split; reflexivity. }
+  unfold pending, cache_has_file, cache_get_file in *.
+  destruct (path_eqb p (w_cachefile w)).
+  { inversion H; subst. split; reflexivity. }
+  destruct (files_get (c_files (w_new w)) p) as [[o|]|].
+  - inversion H; subst. split; [reflexivity|]. discriminate.
+  - inversion H; subst. split; reflexivity.
+  - split; [destruct (cache_created_file (w_old w) p); inversion H; reflexivity | discriminate].
+Qed.
+
+Lemma m_read_strict_cf : forall p c cfo w w' r, cfo_ok (w_new w) cfo ->
+  m_read p c cfo w = (w', r) -> hx true w w'.
+Proof.
+  intros p c cfo w w' r Hcf H. unfold m_read in H.
+  apply bind_inv in H. destruct H as [(w1 & nr & E1 & H) | (e & E1 & _)].
+  2:{ apply (hsame_hx true). exact (is_file_no_read_hs p cfo w w' _ E1). }
+  apply (is_file_no_read_pending_cf _ _ _ _ _ Hcf) in E1. destruct E1 as [-> Hp].
+  apply bind_inv in H. destruct H as [(w2 & u & E2 & H) | (e & E2 & _)].
+  - assert (Np : ~ pending (w_new w) p).
+    { intro X. specialize (Hp X). inversion Hp; subst nr.
+      apply bind_inv in E2. destruct E2 as [(w3 & d & E3 & E2) | (e & _ & E2)]; [|discriminate E2].
+      destruct d; discriminate E2. }
+    assert (S2 : hsame w w2).
+    { refine ((_ : pres HSPO _) w w2 _ E2). pres_auto. }
+    apply (hx_trans true w w2 w'); [apply (hsame_hx true); exact S2|].
+    destruct S2 as (O2 & F2 & N2 & H2).
+    apply bind_inv in H. destruct H as [(w3 & res & E3 & H) | (e & E3 & _)].
+    + assert (X3 : hx true w2 w3).
+      { apply catch_inv in E3. destruct E3 as [(a & E3 & _) | (w4 & e & E3 & E4)].
+        - eapply file_comparison_result_hx; [exact E3|]. intros _. rewrite N2. exact Np.
+        - apply (hx_trans true w2 w4 w3).
+          + eapply file_comparison_result_hx; [exact E3|]. intros _. rewrite N2. exact Np.
+          + apply (hsame_hx true). refine ((_ : pres HSPO _) w4 w3 _ E4). pres_auto. }
+      apply (hx_trans true w2 w3 w'); [exact X3|].
+      apply (hsame_hx true). refine ((_ : pres HSPO _) w3 w' _ H). pres_auto.
+    + apply catch_inv in E3. destruct E3 as [(a & _ & E3) | (w4 & e0 & E3 & E4)]; [discriminate E3|].
+      apply (hx_trans true w2 w4 w').
+      * eapply file_comparison_result_hx; [exact E3|]. intros _. rewrite N2. exact Np.
+      * apply (hsame_hx true). refine ((_ : pres HSPO _) w4 w' _ E4). pres_auto.
+  - apply (hsame_hx true). refine ((_ : pres HSPO _) w w' _ E2). pres_auto.
+Qed.
+
+Lemma exec_query_strict_cf : forall q cfo w w' r, cfo_ok (w_new w) cfo ->
+  exec_query q cfo w = (w', r) -> hx true w w'.
+Proof.
+  intros q cfo w w' r Hcf H. destruct q; cbn [exec_query] in H;
+    try (refine ((_ : pres (HXPO true) _) w w' _ H); solve [pres_auto]).
+  eapply m_read_strict_cf; eauto.
+Qed.
+
+(* ---- a small Hoare logic: strict footprint + a fact about the result, for
+        computations started in a world whose new cache is c0 ---- *)
+Definition sg {A} (c0 : cache) (Q : A -> Prop) (m : M A) : Prop :=
+  forall w w' r, w_new w = c0 -> m w = (w', r) -> hx true w w' /\ (forall a, r = inl a -> Q a).
+
+Lemma hx_new : forall s w w', hx s w w' -> w_new w' = w_new w.
+Proof. intros s w w' (_ & _ & N & _). exact N. Qed.
+
+Lemma sg_ret : forall A c0 (Q : A -> Prop) a, Q a -> sg c0 Q (ret a).
+Proof. intros A c0 Q a Ha w w' r _ H. inversion H; subst w' r. split; [apply hx_refl|]. intros a0 E. inversion E; subst a0. exact Ha. Qed.
+Lemma sg_raise : forall A c0 (Q : A -> Prop) e, sg c0 Q (raise e).
+Proof. intros A c0 Q e w w' r _ H. inversion H; subst w' r. split; [apply hx_refl|]. intros a0 E. discriminate E. Qed.
+Lemma sg_get : forall c0, sg c0 (fun w0 => w_new w0 = c0) get.
+Proof. intros c0 w w' r Hw H. unfold get in H. inversion H. split; [apply hx_refl|]. intros a E. inversion E. subst a. subst w'. exact Hw. Qed.
+Lemma sg_pres : forall A c0 (m : M A), pres (HXPO true) m -> sg c0 (fun _ => True) m.
+Proof. intros A c0 m Hm w w' r _ H. split; [exact (Hm w w' r H) | trivial]. Qed.
+Lemma sg_bind : forall A B c0 (Q1 : A -> Prop) (Q2 : B -> Prop) (m : M A) (f : A -> M B),
+  sg c0 Q1 m -> (forall a, Q1 a -> sg c0 Q2 (f a)) -> sg c0 Q2 (bind m f).
+Proof.
+  intros A B c0 Q1 Q2 m f Hm Hf w w' r Hw H. unfold bind in H.
+  destruct (m w) as [w1 [a|e]] eqn:E.
+  - destruct (Hm w w1 _ Hw E) as [X1 Y1].
+    assert (Hw1 : w_new w1 = c0) by (rewrite (hx_new _ _ _ X1); exact Hw).
+    destruct (Hf a (Y1 a eq_refl) w1 w' r Hw1 H) as [X2 Y2].
+    split; [eapply hx_trans; eauto | exact Y2].
+  - inversion H; subst w1 r. destruct (Hm w w' _ Hw E) as [X1 _]. split; [exact X1|]. intros a E0. discriminate E0.
+Qed.
+Lemma sg_conseq : forall A c0 (Q Q' : A -> Prop) (m : M A), (forall a, Q a -> Q' a) -> sg c0 Q m -> sg c0 Q' m.
+Proof. intros A c0 Q Q' m HQ Hm w w' r Hw H. destruct (Hm w w' r Hw H) as [X Y]. split; [exact X|]. intros a E. apply HQ, Y, E. Qed.
+Lemma sg_ext : forall A c0 (Q : A -> Prop) (m m' : M A), (forall w, m w = m' w) -> sg c0 Q m' -> sg c0 Q m.
+Proof. intros A c0 Q m m' E Hm w w' r Hw H. rewrite E in H. eapply Hm; eauto. Qed.
+Lemma sg_attempt : forall A c0 (m : M A), sg c0 (fun _ => True) m -> sg c0 (fun _ => True) (attempt m).
+Proof.
+  intros A c0 m Hm w w' r Hw H. unfold attempt in H. destruct (m w) as [w1 x] eqn:E. inversion H; subst w' r.
+  destruct (Hm w w1 _ Hw E) as [X _]. split; [exact X | trivial].
+Qed.
+
+Lemma exec_query_sg : forall q cf c0, cf_ok c0 cf -> sg c0 (fun _ => True) (exec_query q (Some cf)).
+Proof.
+  intros q cf c0 Hc w w' r Hw H. split; [|trivial]. eapply exec_query_strict_cf; [|exact H].
+  intros cf' E. inversion E; subst cf'. rewrite Hw. exact Hc.
+Qed.
+
+Lemma is_simple_operation_cached_sg : forall q r ex cf c0, cf_ok c0 cf ->
+  sg c0 (fun _ => True) (is_simple_operation_cached q r ex cf).
+Proof.
+  intros q r ex cf c0 Hc. unfold is_simple_operation_cached.
+  eapply sg_bind; [apply sg_attempt, exec_query_sg; exact Hc|]. intros a _.
+  destruct a as [v|[| | |c|]]; first [apply sg_ret; trivial | apply sg_raise].
+Qed.
+
+Lemma is_build_file_cached_sg : forall p c r c0, cache_has_file c0 p = false ->
+  sg c0 (fun _ => True) (is_build_file_cached p c r).
+Proof.
+  intros p c r c0 Hp w w' res Hw H. split; [|trivial].
+  assert (Np : ~ pending (w_new w) p).
+  { intro X. apply pending_has_file in X. congruence. }
+  unfold is_build_file_cached in H.
+  apply bind_inv in H. destruct H as [(w1 & cur & E1 & H) | (e & E1 & _)].
+  - inversion H; subst. unfold noneable_cmp in E1. apply catch_inv in E1.
+    destruct E1 as [(a & E1 & _) | (w4 & e & E1 & E4)].
+    + eapply file_comparison_result_hx; [exact E1 | intros _; exact Np].
+    + apply (hx_trans true w w4 w').
+      * eapply file_comparison_result_hx; [exact E1 | intros _; exact Np].
+      * apply (hsame_hx true). refine ((_ : pres HSPO _) w4 w' _ E4). pres_auto.
+  - unfold noneable_cmp in E1. apply catch_inv in E1.
+    destruct E1 as [(a & _ & E1) | (w4 & e0 & E1 & E4)]; [discriminate E1|].
+    apply (hx_trans true w w4 w').
+    + eapply file_comparison_result_hx; [exact E1 | intros _; exact Np].
+    + apply (hsame_hx true). refine ((_ : pres HSPO _) w4 w' _ E4). pres_auto.
+Qed.
+
+Definition ok_snd (c0 : cache) (r : bool * cfiles) : Prop := cf_ok c0 (snd r).
+
+Lemma are_subs_cached_sg_F : forall c0 subs,
+  Forall (fun o => forall cf, cf_ok c0 cf -> sg c0 (ok_snd c0) (is_op_cached o cf)) subs ->
+  forall cf, cf_ok c0 cf -> sg c0 (ok_snd c0) (are_subs_cached subs cf).
+Proof.
+  intros c0 subs HF. induction HF as [|s rest Hs HF IH]; intros cf Hc; cbn [are_subs_cached].
+  - apply sg_ret. exact Hc.
+  - eapply sg_bind; [apply Hs; exact Hc|]. intros r Hr. destruct (fst r); [apply IH; exact Hr | apply sg_ret; exact Hr].
+Qed.
+
+Theorem is_op_cached_sg : forall c0 o cf, cf_ok c0 cf -> sg c0 (ok_snd c0) (is_op_cached o cf).
+Proof.
+  intros c0.
+  induction o as [q r e | p c f a k subs r cr ra sf IH | f a k subs r ra sf IH] using op_ind';
+    intros cf Hc; cbn [is_op_cached].
+  - eapply sg_bind; [apply is_simple_operation_cached_sg; exact Hc|]. intros b _. apply sg_ret. exact Hc.
+  - eapply sg_bind; [apply sg_get|]. intros w0 Hw0. cbv beta.
+    destruct (cache_has_file (w_new w0) p || path_eqb p (w_cachefile w0)) eqn:G; [apply sg_ret; exact Hc|].
+    apply orb_false_iff in G. destruct G as [G _]. rewrite Hw0 in G.
+    eapply sg_bind; [apply sg_pres; pres_auto|]. intros ve _.
+    destruct (negb ve); [apply sg_ret; exact Hc|].
+    eapply sg_bind with (Q1 := fun _ => True).
+    { destruct ra; [apply sg_ret; trivial | apply is_build_file_cached_sg; exact G]. }
+    intros ok _. destruct (negb ok); [apply sg_ret; exact Hc|].
+    eapply sg_bind; [apply sg_get|]. intros w1 _. cbv beta.
+    destruct (ra && lexists (w_fs w1) p); [apply sg_ret; exact Hc|].
+    destruct sf; [apply sg_ret; exact Hc|].
+    eapply sg_bind; [apply sg_pres; pres_auto|]. intros d _.
+    destruct d as [ds|e]; [|destruct (is_os e); [apply sg_ret; exact Hc | apply sg_raise]].
+    eapply sg_bind.
+    { eapply sg_ext; [intro; apply subs_go_eq|]. apply (are_subs_cached_sg_F c0 subs IH).
+      intros q Hq. rewrite cf_started_files in Hq. apply Hc. exact Hq. }
+    intros r0 Hr0. unfold ok_snd in Hr0.
+    destruct (negb (fst r0)); [apply sg_ret; exact Hr0|].
+    destruct ra.
+    + destruct (cf_error (snd r0) p) as [cf2|] eqn:E2; [|apply sg_raise].
+      apply sg_ret. unfold ok_snd. cbn [snd]. intros q Hq. rewrite (cf_error_files _ _ _ E2) in Hq. apply Hr0. exact Hq.
+    + apply sg_ret. unfold ok_snd. cbn [snd]. apply cf_ok_finished; assumption.
+  - eapply sg_bind; [apply sg_pres; pres_auto|]. intros ve _.
+    destruct (negb ve || sf); [apply sg_ret; exact Hc|].
+    eapply sg_bind; [apply sg_get|]. intros w1 _. cbv beta.
+    destruct (cache_has_subbuild (w_new w1) (subbuild_key f a k)); [apply sg_ret; exact Hc|].
+    eapply sg_ext; [intro; apply subs_go_eq|]. apply (are_subs_cached_sg_F c0 subs IH). exact Hc.
+Qed.
+
+Lemma are_subs_cached_strict : forall subs, pres (HXPO true) (are_subs_cached subs cf_empty).
+Proof.
+  intros subs w w' r H.
+  refine (proj1 (are_subs_cached_sg_F (w_new w) subs _ cf_empty (cf_ok_empty _) w w' r eq_refl H)).
+  apply Forall_forall. intros o _ cf Hc. apply is_op_cached_sg. exact Hc.
+Qed.
+#[local] Hint Resolve are_subs_cached_strict : pres.
+
+Lemma subbuild_cache_lookup_strict : forall key f, pres (HXPO true) (subbuild_cache_lookup key f).
+Proof. intros key f. unfold subbuild_cache_lookup. pres_auto. Qed.
+
+(* ================================================================== *)
+(** * 6b. The previous cache is never touched                           *)
+(* ================================================================== *)
+
+Definition osame (w w' : world) : Prop := w_old w' = w_old w.
+Lemma osame_refl : forall w, osame w w. Proof. reflexivity. Qed.
+Lemma osame_trans : forall a b c, osame a b -> osame b c -> osame a c.
+Proof. unfold osame. intros; congruence. Qed.
+Definition OPO : PO := {| rel := osame; po_refl := osame_refl; po_trans := osame_trans |}.
+Lemma fstep_osame : forall w w', FSPO w w' -> OPO w w'.
+Proof. cbn. intros w w' (O & _). exact O. Qed.
+Lemma hx_osame : forall w w', HXPO false w w' -> OPO w w'.
+Proof. cbn. intros w w' (O & _). exact O. Qed.
+#[local] Hint Extern 8 (pres OPO _) => apply (pres_weaken FSPO OPO _ _ fstep_osame) : pres.
+#[local] Hint Extern 8 (pres OPO _) => apply (pres_weaken (HXPO false) OPO _ _ hx_osame) : pres.
+
+Lemma modify_new_O : forall f : world -> cache, pres OPO (modify (fun w => set_new (f w) w)).
+Proof. intro f. apply pres_modify. intro w. reflexivity. Qed.
+Lemma new_start_building_file_O : forall p, pres OPO (new_start_building_file p).
+Proof. intro p. unfold new_start_building_file. apply pres_bind; [auto with pres|]. intros _. apply modify_new_O. Qed.
+Lemma new_abort_building_file_O : forall p, pres OPO (new_abort_building_file p).
+Proof. intro p. apply modify_new_O. Qed.
+Lemma new_finish_building_file_O : forall p o, pres OPO (new_finish_building_file p o).
+Proof. intros p o. apply modify_new_O. Qed.
+Lemma new_start_subbuild_O : forall k, pres OPO (new_start_subbuild k).
+Proof. intro k. unfold new_start_subbuild. apply pres_bind; [auto with pres|]. intros _. apply modify_new_O. Qed.
+Lemma new_finish_subbuild_O : forall k o, pres OPO (new_finish_subbuild k o).
+Proof. intros k o. apply modify_new_O. Qed.
+Lemma new_use_cached_operation_O : forall o, pres OPO (new_use_cached_operation o).
+Proof.
+  intros o w w' r H. unfold new_use_cached_operation in H. minv H.
+  - unfold put in H. inversion H; subst. reflexivity.
+  - reflexivity.
+Qed.
+#[local] Hint Resolve new_start_building_file_O new_abort_building_file_O new_finish_building_file_O
+  new_start_subbuild_O new_finish_subbuild_O new_use_cached_operation_O : pres.
+
+Lemma bf_setup_O : forall p c f sa skw, pres OPO (bf_setup p c f sa skw).
+Proof. intros. unfold bf_setup, bf_reuse, bf_claim. pres_auto. Qed.
+Lemma sb_setup_O : forall f sa skw, pres OPO (sb_setup f sa skw).
+Proof. intros. unfold sb_setup. cbv zeta. pres_auto. Qed.
+Lemma bf_fail_O : forall p c f sa skw subs e, pres OPO (bf_fail p c f sa skw subs e).
+Proof.
+  intros p c f sa skw subs e w w' r H. unfold bf_fail in H. cbv zeta in H.
+  match type of H with (match ?X with _ => _ end) = _ => destruct X as [w1 [u|e1]] eqn:E end;
+    inversion H; subst; refine ((_ : pres OPO _) _ _ _ E); pres_auto.
+Qed.
+Lemma bf_finish_O : forall p c f sa skw res subs, pres OPO (bf_finish p c f sa skw res subs).
+Proof.
+  intros p c f sa skw res subs w w' r H. unfold bf_finish in H.
+  destruct res as [v|e]; [|eapply bf_fail_O; eassumption].
+  destruct (sanitize v) as [sv|]; [|eapply bf_fail_O; eassumption].
+  destruct (noneable_cmp p c w) as [w4 [cmp|e]] eqn:E.
+  - assert (Q : osame w w4) by (apply hx_osame; exact (noneable_cmp_hxf p c w w4 _ E)).
+    eapply osame_trans; [exact Q|].
+    destruct cmp; try (eapply bf_fail_O; eassumption).
+    all: cbv zeta in H;
+      match type of H with (match ?X with _ => _ end) = _ => destruct X as [w5 u] eqn:E5 end;
+      inversion H; subst; exact (new_finish_building_file_O _ _ _ _ _ E5).
+  - assert (Q : osame w w4) by (apply hx_osame; exact (noneable_cmp_hxf p c w w4 _ E)).
+    eapply osame_trans; [exact Q|]. eapply bf_fail_O; eassumption.
+Qed.
+Theorem m_build_file_O : forall p c f a kw (fn : path -> pyval -> pyval -> body),
+  (forall sa skw, pres OPO (fn p sa skw)) -> pres OPO (m_build_file p c f a kw fn).
+Proof.
+  intros p c f a kw fn Hfn w w' r H. rewrite m_build_file_unfold in H.
+  destruct (sanitize a) as [sa|]; [|inversion H; subst; reflexivity].
+  destruct (sanitize kw) as [skw|]; [|inversion H; subst; reflexivity].
+  destruct (bf_setup p c f sa skw w) as [w1 [[[o|[e o]]|]|e]] eqn:Hs;
+    try (inversion H; subst; exact (bf_setup_O _ _ _ _ _ _ _ _ Hs)).
+  unfold bf_rebuild in H.
+  destruct (fn p sa skw (bf_invoke_world p f sa skw w1)) as [w3 [res subs]] eqn:Ef.
+  eapply osame_trans; [exact (bf_setup_O _ _ _ _ _ _ _ _ Hs)|].
+  eapply osame_trans; [|exact (bf_finish_O _ _ _ _ _ _ _ _ _ _ H)].
+  exact (Hfn sa skw _ _ _ Ef).
+Qed.
+Lemma sb_finish_O : forall f sa skw res subs, pres OPO (sb_finish f sa skw res subs).
+Proof.
+  intros f sa skw res subs w w' r H. unfold sb_finish in H. cbv zeta in H.
+  destruct res as [v|e]; [destruct (sanitize v)|];
+    match type of H with (match ?X with _ => _ end) = _ => destruct X as [w5 u] eqn:E5 end;
+    inversion H; subst; exact (new_finish_subbuild_O _ _ _ _ _ E5).
+Qed.
+Theorem m_subbuild_O : forall f a kw (fn : pyval -> pyval -> body),
+  (forall sa skw, pres OPO (fn sa skw)) -> pres OPO (m_subbuild f a kw fn).
+Proof.
+  intros f a kw fn Hfn w w' r H. rewrite m_subbuild_unfold in H.
+  destruct (sanitize a) as [sa|]; [|inversion H; subst; reflexivity].
+  destruct (sanitize kw) as [skw|]; [|inversion H; subst; reflexivity].
+  destruct (sb_setup f sa skw w) as [w1 [[[o|[e o]]|]|e]] eqn:Hs;
+    try (inversion H; subst; exact (sb_setup_O _ _ _ _ _ _ Hs)).
+  unfold sb_rebuild in H.
+  destruct (fn sa skw (sb_invoke_world f sa skw w1)) as [w3 [res subs]] eqn:Ef.
+  eapply osame_trans; [exact (sb_setup_O _ _ _ _ _ _ Hs)|].
+  eapply osame_trans; [|exact (sb_finish_O _ _ _ _ _ _ _ _ H)].
+  exact (Hfn sa skw _ _ _ Ef).
+Qed.
+Theorem run_O : forall pr target subs, pres OPO (run pr target subs).
+Proof.
+  induction pr as [v | e | stale q k IH | c k IH | stale p c f a kw fn IHfn k IHk | stale f a kw fn IHfn k IHk];
+    intros target subs w w' r H; cbn [run] in H; change (osame w w').
+  - inversion H; subst. reflexivity.
+  - inversion H; subst. reflexivity.
+  - destruct stale; [eapply IH; eauto|].
+    destruct (m_query q w) as [w1 [r1 o]] eqn:E.
+    pose proof (m_query_strict q w w1 _ E) as (O & _). apply IH in H.
+    unfold osame in *. rewrite H. unfold log_answer.
+    repeat match goal with |- context [match ?y with _ => _ end] => destruct y end; exact O.
+  - destruct target as [t|]; [|eapply IH; eauto].
+    destruct (write_file (w_fs w) t c None (N.succ (w_clock w)) (w_nextid w)) as [fs'|e] eqn:E.
+    + apply IH in H. exact H.
+    + inversion H; subst. reflexivity.
+  - destruct stale; [eapply IHk; eauto|].
+    match type of H with (let '(_, _) := ?X in _) = _ => destruct X as [w1 [r1 o]] eqn:E end.
+    apply m_build_file_O in E; [|intros sa skw; apply IHfn].
+    apply IHk in H. eapply osame_trans; [exact E | exact H].
+  - destruct stale; [eapply IHk; eauto|].
+    match type of H with (let '(_, _) := ?X in _) = _ => destruct X as [w1 [r1 o]] eqn:E end.
+    apply m_subbuild_O in E; [|intros sa skw; apply IHfn].
+    apply IHk in H. eapply osame_trans; [exact E | exact H].
+Qed.
+
+(* ================================================================== *)
+(** * 7. A claimed path and the memo, for every nested call              *)
+(* ================================================================== *)
+
+(* the file table of the previous build's cache is keyed by the paths of its
+   records (true of the empty cache and of every cache Cache.read_immutable
+   returns: HashMemoRun.v) *)
+Definition old_keys_ok (c : cache) : Prop :=
+  forall p p' cm f a k subs r cr ra sf,
+    cache_get_file c p = Some (OBuildFile p' cm f a k subs r cr ra sf) -> p' = p.
+
+(* the previous cache is untouched; and a path [x] that is claimed and in
+   progress stays so, and the memo's view of it does not change at all *)
+Definition prel (x : path) (w w' : world) : Prop :=
+  w_old w' = w_old w /\
+  (old_keys_ok (w_old w) -> pending (w_new w) x ->
+   pending (w_new w') x /\ hash_get (w_hash w') x = hash_get (w_hash w) x).
+
+Lemma prel_refl : forall x w, prel x w w.
+Proof. intros x w. split; [reflexivity|]. intros _ H. split; [exact H | reflexivity]. Qed.
+Lemma prel_trans : forall x a b c, prel x a b -> prel x b c -> prel x a c.
+Proof.
+  intros x a b c [O1 H1] [O2 H2]. split; [congruence|]. intros Hk Hp.
+  destruct (H1 Hk Hp) as [Pb E1]. rewrite <- O1 in Hk. destruct (H2 Hk Pb) as [Pc E2].
+  split; [exact Pc | congruence].
+Qed.
+Definition PPO (x : path) : PO := {| rel := prel x; po_refl := prel_refl x; po_trans := prel_trans x |}.
+
+Lemma hx_prel : forall x w w', HXPO true w w' -> PPO x w w'.
+Proof.
+  cbn. intros x w w' H. pose proof H as (O & _ & N & _). split; [exact O|]. intros _ Hp.
+  unfold pending in *. rewrite N. split; [exact Hp|]. apply hx_strict_pending; assumption.
+Qed.
+Lemma fstep_prel : forall x w w', FSPO w w' -> PPO x w w'.
+Proof.
+  cbn. intros x w w' (O & N & Hh & _). split; [exact O|]. intros _ Hp. unfold pending in *. rewrite N, Hh. auto.
+Qed.
+#[local] Hint Extern 8 (pres (PPO _) _) => apply (pres_weaken FSPO (PPO _) _ _ (fstep_prel _)) : pres.
+#[local] Hint Extern 8 (pres (PPO _) _) => apply (pres_weaken (HXPO true) (PPO _) _ _ (hx_prel _)) : pres.
+
+Lemma prel_new : forall x w c', (pending (w_new w) x -> pending c' x) -> prel x w (set_new c' w).
+Proof. intros x w c' H. split; [reflexivity|]. intros _ Hp. split; [exact (H Hp) | reflexivity]. Qed.
+Lemma prel_set_log : forall x l w, prel x w (set_log l w).
+Proof. intros x l w. split; [reflexivity|]. intros _ Hp. split; [exact Hp | reflexivity]. Qed.
+
+(* hashing another path *)
+Lemma file_hash_prel : forall x p, p <> x -> pres (PPO x) (file_hash p).
+Proof.
+  intros x p Hne w w' r H. pose proof (file_hash_hxf p w w' r H) as (O & _ & N & _).
+  split; [exact O|]. intros _ Hp. unfold pending in *. rewrite N. split; [exact Hp|].
+  unfold file_hash in H. cbv zeta in H. apply path_eqb_neq in Hne.
+  repeat dm H; inversion H; subst; try reflexivity; cbn [w_hash set_hash hash_get]; rewrite Hne; reflexivity.
+Qed.
+Lemma file_comparison_result_prel : forall x p c, p <> x -> pres (PPO x) (file_comparison_result p c).
+Proof. intros x p c Hne. destruct c; cbn [file_comparison_result]; [pres_auto | apply file_hash_prel; exact Hne]. Qed.
+Lemma noneable_cmp_prel : forall x p c, p <> x -> pres (PPO x) (noneable_cmp p c).
+Proof. intros x p c Hne. unfold noneable_cmp. pres_auto. apply file_comparison_result_prel. exact Hne. Qed.
+Lemma is_build_file_cached_prel : forall x p c r, p <> x -> pres (PPO x) (is_build_file_cached p c r).
+Proof. intros x p c r Hne. unfold is_build_file_cached. pres_auto. apply noneable_cmp_prel. exact Hne. Qed.
+
+Lemma build_file_cache_lookup_prel : forall x p f a k, p <> x -> pres (PPO x) (build_file_cache_lookup p f a k).
+Proof.
+  intros x p f a k Hne w w' r H.
+  assert (O : w_old w' = w_old w).
+  { pose proof (build_file_cache_lookup_svb p f a k w w' r H) as (_ & _ & _ & X & _). exact X. }
+  split; [exact O|]. intros Hk Hp.
+  unfold build_file_cache_lookup in H. unfold bind at 1, get in H.
+  destruct (cache_get_file (w_old w) p) as [[q0 r0 e0 | p' c' f' a' k' subs' r' cr' ra' sf' | f' a' k' subs' r' ra']|] eqn:E;
+    try (inversion H; subst; split; [exact Hp | reflexivity]).
+  pose proof (Hk _ _ _ _ _ _ _ _ _ _ _ E) as X. subst p'.
+  refine (proj2 ((_ : pres (PPO x) _) w w' r H) Hk Hp).
+  pres_auto. apply is_build_file_cached_prel. exact Hne.
+Qed.
+
+Lemma new_start_building_file_P : forall x p, pres (PPO x) (new_start_building_file p).
+Proof.
+  intros x p w w' r H. unfold new_start_building_file in H.
+  apply bind_inv in H. destruct H as [(w0 & u0 & E0 & E1) | (e & E0 & _)].
+  2:{ refine ((_ : pres (PPO x) _) _ _ _ E0). pres_auto. }
+  assert (Hfree : cache_has_file (w_new w) p = false /\ w0 = w).
+  { unfold new_assert_no_file in E0. apply bind_inv in E0.
+    destruct E0 as [(w00 & a0 & G & E0) | (e & G & _)]; [|inversion G].
+    inversion G; subst w00 a0. destruct (cache_has_file (w_new w) p); [inversion E0|].
+    inversion E0; subst. split; reflexivity. }
+  destruct Hfree as [Hfree ->]. unfold modify in E1. inversion E1; subst. apply prel_new.
+  intro Hp. unfold pending in *. cbn [c_files cache_with]. rewrite files_get_set.
+  destruct (path_eqb p x) eqn:E; [|exact Hp].
+  apply path_eqb_eq in E. subst p. unfold cache_has_file in Hfree. rewrite Hp in Hfree. discriminate Hfree.
+Qed.
+Lemma new_abort_building_file_P : forall x p, p <> x -> pres (PPO x) (new_abort_building_file p).
+Proof.
+  intros x p Hne. unfold new_abort_building_file. apply pres_modify. intro w. apply prel_new.
+  intro Hp. unfold pending in *. cbn [c_files cache_with]. rewrite files_get_del.
+  apply path_eqb_neq in Hne. rewrite Hne. exact Hp.
+Qed.
+Lemma new_finish_building_file_P : forall x p o, p <> x -> pres (PPO x) (new_finish_building_file p o).
+Proof.
+  intros x p o Hne. unfold new_finish_building_file. apply pres_modify. intro w. apply prel_new.
+  intro Hp. unfold pending in *. cbn [c_files cache_with]. rewrite files_get_set.
+  apply path_eqb_neq in Hne. rewrite Hne. exact Hp.
+Qed.
+Lemma new_start_subbuild_P : forall x k, pres (PPO x) (new_start_subbuild k).
+Proof.
+  intros x k. unfold new_start_subbuild. apply pres_bind; [auto with pres|]. intros _.
+  apply pres_modify. intro w. apply prel_new. intro Hp. exact Hp.
+Qed.
+Lemma new_finish_subbuild_P : forall x k o, pres (PPO x) (new_finish_subbuild k o).
+Proof. intros x k o. unfold new_finish_subbuild. apply pres_modify. intro w. apply prel_new. intro Hp. exact Hp. Qed.
+Lemma new_use_cached_operation_P : forall x o, pres (PPO x) (new_use_cached_operation o).
+Proof.
+  intros x o w w' r H. unfold new_use_cached_operation in H. minv H.
+  - unfold put in H. inversion H; subst. apply prel_new. intro Hp.
+    eapply register_op_keeps_pending; eauto. apply pending_has_file. exact Hp.
+  - apply prel_refl.
+Qed.
+#[local] Hint Resolve new_start_building_file_P new_start_subbuild_P new_finish_subbuild_P
+  new_use_cached_operation_P subbuild_cache_lookup_strict : pres.
+
+Lemma bf_reuse_P : forall x p c f sa skw cached, p <> x -> pres (PPO x) (bf_reuse p c f sa skw cached).
+Proof. intros x p c f sa skw cached Hne. unfold bf_reuse. pres_auto. apply noneable_cmp_prel. exact Hne. Qed.
+Lemma bf_claim_P : forall x p, p <> x -> pres (PPO x) (bf_claim p).
+Proof. intros x p Hne. unfold bf_claim. pres_auto. apply new_abort_building_file_P. exact Hne. Qed.
+Lemma bf_setup_P : forall x p c f sa skw, p <> x -> pres (PPO x) (bf_setup p c f sa skw).
+Proof.
+  intros x p c f sa skw Hne. unfold bf_setup. pres_auto.
+  - apply build_file_cache_lookup_prel. exact Hne.
+  - apply bf_reuse_P. exact Hne.
+  - apply bf_claim_P. exact Hne.
+Qed.
+Lemma sb_setup_P : forall x f sa skw, pres (PPO x) (sb_setup f sa skw).
+Proof. intros. unfold sb_setup. cbv zeta. pres_auto. Qed.
+
+Lemma bf_fail_P : forall x p c f sa skw subs e, p <> x -> pres (PPO x) (bf_fail p c f sa skw subs e).
+Proof.
+  intros x p c f sa skw subs e Hne w w' r H. unfold bf_fail in H. cbv zeta in H.
+  match type of H with (match ?X with _ => _ end) = _ => destruct X as [w1 [u|e1]] eqn:E end;
+    inversion H; subst; refine ((_ : pres (PPO x) _) _ _ _ E); pres_auto;
+    apply new_finish_building_file_P; exact Hne.
+Qed.
+
+Lemma bf_finish_P : forall x p c f sa skw res subs, p <> x -> pres (PPO x) (bf_finish p c f sa skw res subs).
+Proof.
+  intros x p c f sa skw res subs Hne w w' r H. unfold bf_finish in H.
+  destruct res as [v|e]; [|eapply bf_fail_P; eassumption].
+  destruct (sanitize v) as [sv|]; [|eapply bf_fail_P; eassumption].
+  destruct (noneable_cmp p c w) as [w4 [cmp|e]] eqn:E.
+  - assert (Q : prel x w w4) by exact (noneable_cmp_prel x p c Hne w w4 _ E).
+    eapply prel_trans; [exact Q|].
+    destruct cmp; try (eapply bf_fail_P; eassumption).
+    all: cbv zeta in H;
+      match type of H with (match ?X with _ => _ end) = _ => destruct X as [w5 u] eqn:E5 end;
+      inversion H; subst; exact (new_finish_building_file_P x _ _ Hne _ _ _ E5).
+  - assert (Q : prel x w w4) by exact (noneable_cmp_prel x p c Hne w w4 _ E).
+    eapply prel_trans; [exact Q|]. eapply bf_fail_P; eassumption.
+Qed.
+
+Theorem m_build_file_P : forall x p c f a kw (fn : path -> pyval -> pyval -> body),
+  (forall sa skw, p <> x -> pres (PPO x) (fn p sa skw)) ->
+  (forall sa skw, pres OPO (fn p sa skw)) ->
+  pres (PPO x) (m_build_file p c f a kw fn).
+Proof.
+  intros x p c f a kw fn Hfn Hold w w' r H.
+  destruct (path_eqb p x) eqn:Epx.
+  { apply path_eqb_eq in Epx. subst p.
+    destruct (cache_has_file (w_new w) x) eqn:Eh.
+    - destruct (sanitize a) as [sa|] eqn:Ea.
+      2:{ rewrite (bf_type_error x c f a kw fn w (or_introl Ea)) in H. inversion H; subst. apply prel_refl. }
+      destruct (sanitize kw) as [skw|] eqn:Ek.
+      2:{ rewrite (bf_type_error x c f a kw fn w (or_intror Ek)) in H. inversion H; subst. apply prel_refl. }
+      rewrite (dup_file_rejected x c f a kw fn w sa skw Ea Ek Eh) in H. inversion H; subst. apply prel_refl.
+    - (* x is not claimed: only the previous cache matters *)
+      split; [|intros _ Hp; apply pending_has_file in Hp; congruence].
+      exact (m_build_file_O x c f a kw fn Hold w w' r H). }
+  apply path_eqb_neq in Epx.
+  rewrite m_build_file_unfold in H.
+  destruct (sanitize a) as [sa|]; [|inversion H; subst; apply prel_refl].
+  destruct (sanitize kw) as [skw|]; [|inversion H; subst; apply prel_refl].
+  destruct (bf_setup p c f sa skw w) as [w1 [[[o|[e o]]|]|e]] eqn:Hs.
+  - inversion H; subst. exact (bf_setup_P x _ _ _ _ _ Epx _ _ _ Hs).
+  - inversion H; subst. exact (bf_setup_P x _ _ _ _ _ Epx _ _ _ Hs).
+  - unfold bf_rebuild in H.
+    destruct (fn p sa skw (bf_invoke_world p f sa skw w1)) as [w3 [res subs]] eqn:Ef.
+    eapply prel_trans; [exact (bf_setup_P x _ _ _ _ _ Epx _ _ _ Hs)|].
+    eapply prel_trans; [apply (prel_set_log x (LInvoke f (Some p) sa skw :: w_log w1) w1)|].
+    eapply prel_trans; [exact (Hfn sa skw Epx _ _ _ Ef)|].
+    exact (bf_finish_P x _ _ _ _ _ _ _ Epx _ _ _ H).
+  - inversion H; subst. exact (bf_setup_P x _ _ _ _ _ Epx _ _ _ Hs).
 Qed.
